@@ -485,13 +485,14 @@ func (s *Server) handlePostTx(w http.ResponseWriter, r *http.Request) {
 	}
 
 	// Ensure halt lock is held by caller. The halt lock holds the write lock
-	// on this database on behalf of the caller.
-	if !db.HoldsHaltLock(lockID) {
+	// on this database on behalf of the caller. Prevent its release or expiry
+	// during copy & apply.
+	unpin := db.PinHaltLock(lockID)
+	if unpin == nil {
 		Error(w, r, fmt.Errorf("halt lock not held: %d", lockID), http.StatusConflict)
 		return
 	}
-
-	// TODO(fwd): Prevent halt lock release during copy & apply.
+	defer unpin()
 
 	// Wrap request body in a chunked reader.
 	ltxPath, err := db.WriteLTXFileAt(r.Context(), r.Body)
